@@ -172,7 +172,15 @@ pub fn decode(base38_str: &str) -> impl Iterator<Item = Result<u8, Error>> + '_ 
             let offset = stru.len() / 5 * 5;
             decode_base38(&stru[offset..])
         })
-        .take_while(Result::is_ok)
+        // Stop after the first error, but do report it
+        .scan(false, |failed, byte| {
+            if *failed {
+                None
+            } else {
+                *failed = byte.is_err();
+                Some(byte)
+            }
+        })
 }
 
 fn decode_base38(chars: &[u8]) -> impl Iterator<Item = Result<u8, Error>> {
@@ -201,19 +209,20 @@ fn decode_base38(chars: &[u8]) -> impl Iterator<Item = Result<u8, Error>> {
         cerr = Some(ErrorCode::InvalidData)
     }
 
-    (0..repeat)
-        .map(move |_| {
-            if let Some(err) = cerr {
-                Err(err.into())
-            } else {
-                let byte = (value & 0xff) as u8;
+    // An invalid chunk is reported as a single error
+    let count = if cerr.is_some() { 1 } else { repeat };
 
-                value >>= 8;
+    (0..count).map(move |_| {
+        if let Some(err) = cerr {
+            Err(err.into())
+        } else {
+            let byte = (value & 0xff) as u8;
 
-                Ok(byte)
-            }
-        })
-        .take_while(Result::is_ok)
+            value >>= 8;
+
+            Ok(byte)
+        }
+    })
 }
 
 fn decode_char(c: u8) -> Result<u8, Error> {
